@@ -187,6 +187,144 @@ def observe(fn, ins, lit, ir, wr):
     return o
 
 
+
+# ---------------------------------------------------------------------------------------------- writer contexts
+# How the Writer prints a CONSTANT operand in every expression context it can distinguish (after register propagation
+# an operand of any expression may be a Constant): operator, side, type of the other operand, type of the constant.
+# Each context is printed by the real Writer for a COMPLETE small range of values and the boundaries; the text is lexed
+# with a Java lexer (below) and abstracted to a lexeme template plus the kind and value of its one literal.
+BIN_OPS = ["+", "-", "*", "/", "%", "&", "|", "^", "<<", ">>", ">>>"]
+REL_OPS = ["==", "!=", "<", ">=", ">", "<="]
+CTX_I = (list(range(0, 256)) + list(range(-128, 0)) +
+         [256, 257, -129, -255, -256, 32767, 32768, -32768, -32769, 65535, 65536, 65537, 0x7FFFFFFF, 0x7FFFFFFE, -0x80000000,
+          -0x7FFFFFFF, 0x40000000, 1 << 24, 1000, -1000, 123456789, -123456789])
+CTX_J = CTX_I + [1 << 31, (1 << 31) + 1, -(1 << 31) - 1, 1 << 32, (1 << 32) - 1, -(1 << 32), (1 << 63) - 1, -(1 << 63),
+                 -(1 << 63) + 1, 1 << 62, 0x0123456789ABCDEF, -0x0123456789ABCDEF]
+OFFSET = 1 << 63
+
+
+def context_specs():
+    specs = [("ibin", op, "r") for op in BIN_OPS] + [("ibin", "-", "l"), ("ibin", "+", "l")]
+    specs += [("jbin", op, "r") for op in ("+", "-", "&")] + [("jshift", "<<", "r")]
+    specs += [("cond", op, t) for t in "ICBS" for op in REL_OPS]
+    specs += [("condcast", op, "(char)") for op in REL_OPS]
+    specs += [("condl", op, "I") for op in REL_OPS]
+    specs += [("const", "", "I"), ("const", "", "J"), ("un", "-", "I"), ("un", "~", "I"), ("un", "-", "J")]
+    specs += [("cast", "(long)", "J"), ("cast", "(int)", "I"), ("cast", "(byte)", "B"), ("cast", "(char)", "C"), ("cast", "(short)", "S")]
+    return specs
+
+
+def context_is_long(spec):
+    family, op, aux = spec
+    return family == "jbin" or (family in ("const", "un") and aux == "J") or (family == "cast" and op == "(int)")
+
+
+def build_context(ir, spec, v):
+    """the real IR expression of a context with constant v"""
+    family, op, aux = spec
+
+    def var(t):
+        x = ir.Variable(1)
+        x.type = t
+        x.declared = True
+        return x
+    if family == "ibin":
+        c = ir.Constant(v, "I")
+        return ir.BinaryExpression(op, var("I"), c, "I") if aux == "r" else ir.BinaryExpression(op, c, var("I"), "I")
+    if family == "jbin":
+        return ir.BinaryExpression(op, var("J"), ir.Constant(v, "J"), "J")
+    if family == "jshift":
+        return ir.BinaryExpression(op, var("J"), ir.Constant(v, "I"), "J")
+    if family == "cond":
+        return ir.ConditionalExpression(op, var(aux), ir.Constant(v, "I"))
+    if family == "condcast":
+        # what register propagation does: the operand stays under the key of the variable it replaced
+        e = ir.ConditionalExpression(op, var("I"), ir.Constant(v, "I"))
+        e.var_map[e.arg1] = ir.CastExpression(aux, "C", var("I"))
+        return e
+    if family == "condl":
+        return ir.ConditionalExpression(op, ir.Constant(v, "I"), var("I"))
+    if family == "const":
+        return ir.Constant(v, aux)
+    if family == "un":
+        return ir.UnaryExpression(op, ir.Constant(v, aux), aux)
+    if family == "cast":
+        return ir.CastExpression(op, aux, ir.Constant(v, "J" if op == "(int)" else "I"))
+    raise ValueError(spec)
+
+
+def context_text(ir, wr, spec, v):
+    w = wr.Writer(None, None)
+    build_context(ir, spec, v).visit(w)
+    return str(w)
+
+
+_LEX = re.compile(r"""\s*(?:
+    (?P<chr>'(?:[^'\\\n]|\\[btnfr"'\\]|\\u[0-9a-fA-F]{4})')
+  | (?P<num>(?<![\w)])-?\d+L?(?![\w.]))
+  | (?P<id>[A-Za-z_][\w.]*)
+  | (?P<op>>>>=?|>>=?|<<=?|[=!<>]=|&&|\|\||[-+*/%&|^~<>=(),?:])
+)""", re.X)
+
+
+def java_lex(text):
+    """lexemes of the printed fragment, or None when the text is not lexically Java (e.g. an unclosed char literal)"""
+    out, i = [], 0
+    text = text.rstrip()
+    while i < len(text):
+        m = _LEX.match(text, i)
+        if not m or m.end() == i:
+            return None
+        kind = m.lastgroup
+        out.append((kind, m.group(kind)))
+        i = m.end()
+    return out
+
+
+_ESC = {"b": 8, "t": 9, "n": 10, "f": 12, "r": 13, '"': 34, "'": 39, "\\": 92}
+
+
+def abstract_literal(text):
+    """(template lexemes with '#' for the literal, kind int|long|char|bad, value)"""
+    toks = java_lex(text)
+    if toks is None:
+        return (["<not-java>", text], "bad", 0)
+    lits = [(k, t) for k, t in toks if k in ("num", "chr")]
+    if len(lits) != 1:
+        return (["<literals:%d>" % len(lits), text], "bad", 0)
+    k, t = lits[0]
+    if k == "chr":
+        body = t[1:-1]
+        val = ord(body) if len(body) == 1 else (int(body[2:], 16) if body[1] == "u" else _ESC[body[1]])
+        kind = "char"
+    else:
+        kind = "long" if t.endswith("L") else "int"
+        val = int(t.rstrip("L"))
+    return ([("#" if kk in ("num", "chr") else tt) for kk, tt in toks], kind, val)
+
+
+def reflect_contexts(ir, wr):
+    """rows: (family, op, aux, template, kind, [values], [literal values]) — one row per distinct (template, kind) of a context"""
+    rows = []
+    for spec in context_specs():
+        groups = {}
+        order = []
+        for v in (CTX_J if context_is_long(spec) else CTX_I):
+            try:
+                tpl, kind, val = abstract_literal(context_text(ir, wr, spec, v))
+            except Exception as e:  # noqa
+                tpl, kind, val = (["<raised:%s>" % type(e).__name__], "bad", 0)
+            key = (tuple(tpl), kind)
+            if key not in groups:
+                groups[key] = ([], [])
+                order.append(key)
+            groups[key][0].append(v)
+            groups[key][1].append(val)
+        for key in order:
+            rows.append((spec[0], spec[1], spec[2], list(key[0]), key[1], groups[key][0], groups[key][1]))
+    return rows
+
+
 def generate(repo):
     dex, oi, ir, wr = _load(repo)
     try:
@@ -258,6 +396,28 @@ def generate(repo):
     out.append(",\n".join(body) + "]")
     out += ["", "/-- class Op: attribute name ↦ Java operator text -/", "def opTable : List (String × String) := ["]
     out.append(",\n".join("  (%s, %s)" % (lean_str(k), lean_str(v)) for k, v in optab) + "]")
+    def enc(vs):
+        """the sequence as maximal runs of consecutive values (lossless), each value offset by 2^63"""
+        runs = []
+        for v in vs:
+            v = max(-OFFSET, min(OFFSET - 1, v)) + OFFSET
+            if runs and runs[-1][1] + 1 == v:
+                runs[-1][1] = v
+            else:
+                runs.append([v, v])
+        return "[" + ", ".join("(%d, %d)" % (a, b) for a, b in runs) + "]"
+    out += ["", "/-- value sequences are stored as maximal runs (lo, hi) of consecutive values, offset by 2^63 -/",
+            "def ctxValsI : List (Nat × Nat) := " + enc(CTX_I), "def ctxValsJ : List (Nat × Nat) := " + enc(CTX_J), "",
+            "/-- how the real Writer prints a Constant operand in one expression context: context (family, operator, type/side),",
+            "    lexeme template of the printed text (`#` = the literal), kind of the literal (int/long/char/bad), the constants",
+            "    printed this way and the value their literal denotes (both offset by 2^63) -/",
+            "structure CtxRow where", "  family : String", "  op : String", "  aux : String", "  template : List String",
+            "  kind : String", "  vals : List (Nat × Nat)", "  lits : List (Nat × Nat)", "", "def ctxRows : List CtxRow := ["]
+    crow = []
+    for fam, op_, aux, tpl, kind, vs, ls in reflect_contexts(ir, wr):
+        crow.append("  ⟨%s, %s, %s, [%s], %s, %s, %s⟩" % (lean_str(fam), lean_str(op_), lean_str(aux),
+                                                         ", ".join(lean_str(t) for t in tpl), lean_str(kind), enc(vs), enc(ls)))
+    out.append(",\n".join(crow) + "]")
     out += ["", "end AgVerif.Gen.Translate", ""]
     return {"Translate": "\n".join(out)}
 
